@@ -3,6 +3,7 @@ import Jwt.Lemmas.Json
 import Jwt.Checker
 import Jwt.Generated.ClaimRules
 import Jwt.Lemmas.PipelineConfig
+import Jwt.Lemmas.PipelineClaims
 /-!
 # C04 — claim checks (exp, nbf, iss, sub, aud) are enforced exactly as configured
 
@@ -292,5 +293,17 @@ theorem C04_leeway_is_source (ck : Checker) (c : ClaimId) (secs : Int) :
     (ck.timeLeeway c secs).2 = r.1 ∧ (r.2.2.1 = true → (ck.timeLeeway c secs).1.cfg.claims.expLeeway = secs) ∧
     (r.2.2.2.1 = true → (ck.timeLeeway c secs).1.cfg.claims.nbfLeeway = secs) :=
   ⟨(checker_timeLeeway_generated ck c secs).1, (checker_timeLeeway_generated ck c secs).2.1, (checker_timeLeeway_generated ck c secs).2.2.1⟩
+
+/-- **The claims check is the source's.** `__verify_claims` and `__check_str_claim` are *generated* from `jwt-verify.c`;
+the kernel evaluates the generated code over every combination of its tests: each bit of the returned mask depends on its
+own check only, in the closed form `verifyClaims_closed`. With the tests fed by the model's quantities, each of the model's
+five checks equals the corresponding bit, and the model's verdict is their disjunction. -/
+theorem C04_verify_claims_is_source (c : ClaimCfg) (claims : Json) (now : Int) :
+    let r := verifyClaimsGen c claims now
+    expFails c claims now = r.2.2.1 ∧ nbfFails c claims now = r.2.2.2.1 ∧
+    strClaimFails c.mask.iss c.expected claims N.iss = r.2.2.2.2.1 ∧ strClaimFails c.mask.sub c.expected claims N.sub = r.2.2.2.2.2.1 ∧
+    strClaimFails c.mask.aud c.expected claims N.aud = r.2.2.2.2.2.2 ∧
+    (claimsFail c claims now = (r.2.2.1 || r.2.2.2.1 || r.2.2.2.2.1 || r.2.2.2.2.2.1 || r.2.2.2.2.2.2)) :=
+  verifyClaims_generated c claims now
 
 end Jwt.Props.C04
